@@ -221,6 +221,13 @@ func (fr *Frame) localBefore(b *ssa.BasicBlock, limit int, name string) (ssa.Val
 			if blk == b && i >= limit {
 				break
 			}
+			if phi, ok := ins.(*ssa.Phi); ok && phi.Comment == name {
+				// the variable's value where branches (or a loop) that assign it meet
+				if best == nil || bestBlock.Dominates(blk) && (bestBlock != blk || i > bestIdx) {
+					best, bestBlock, bestIdx = phi, blk, i
+				}
+				continue
+			}
 			d, ok := ins.(*ssa.DebugRef)
 			if !ok || d.IsAddr {
 				continue
